@@ -37,6 +37,11 @@ def main():
                      + glob.glob(os.path.join(HERE, "seeded", "*", "patch.diff")))
     if args:
         patches = [p for p in patches if any(a in p for a in args)]
+    def _obsolete(p):
+        if not p.endswith("patch.diff"):
+            return False
+        return bool(json.load(open(os.path.join(os.path.dirname(p), "meta.json"))).get("obsolete"))
+    patches = [p for p in patches if not _obsolete(p)]
     results = []
     for patch in patches:
         name = os.path.relpath(patch, HERE)
